@@ -99,3 +99,36 @@ def expected_window_ids(rows, m: int, annotation: str, instance, kept_ids) -> Op
     host = {r["id"] for r in rows if r["stream"] == -1 and r["dur"] > 0 and start <= r["ts"] <= end}
     dev = {r["id"] for r in rows if r["stream"] != -1 and lk[r["id"]] > 0 and lk[r["id"]] in host}
     return host | dev
+
+
+def graphs_for(world, ta, windows_subset=None):
+    """yield (ctx, graph) for every window / flag of the world on which the analysis succeeds"""
+    for (ann, inst) in (windows_subset or windows(world)):
+        for flag in ((world["flag"],) if ann else (0, 1)):
+            res = analyse(ta, ann, inst, flag)
+            if res is None:
+                continue
+            g, ok = res
+            if ok:
+                yield dict(annotation=ann, instance=inst, flag=flag, program=world["program"], profile=world["profile"],
+                           file_order=world.get("file_order")), g
+
+
+def longest_path_weight(g, attr: str = "weight"):
+    """maximum total weight over all paths of the DAG (own dynamic programme over a DFS post-order)"""
+    adj: Dict[int, List[Tuple[int, float]]] = {}
+    for u, v in g.edges:
+        adj.setdefault(u, []).append((v, g.edges[u, v][attr]))
+    best: Dict[int, float] = {}
+
+    def dfs(u):
+        if u in best:
+            return best[u]
+        best[u] = 0  # (graphs are acyclic: checked by C08)
+        b = 0
+        for v, w in adj.get(u, []):
+            b = max(b, w + dfs(v))
+        best[u] = b
+        return b
+
+    return max([dfs(u) for u in list(g.nodes)] + [0])
